@@ -598,6 +598,7 @@ type FuncContract struct {
 	Ensures  []*Clause
 	Invs     []*Clause
 	Marks    []*Clause
+	Asserts  []*Clause // assert [label] at "source text" expr: checked after the statement on that line
 	Modifies []string // declared frame (heap names / ghost vars); nil = computed
 	HasMod   bool
 	Trusted  bool // body not verified (listed)
@@ -627,7 +628,7 @@ func NewContractSet() *ContractSet {
 var clauseKeywords = map[string]bool{
 	"func": true, "interface": true, "extern": true, "ghost": true, "axiom": true, "lemma": true,
 	"props": true, "requires": true, "ensures": true, "loop": true, "modifies": true, "trusted": true,
-	"marks": true, "assumed": true, "pure": true, "nosafety": true, "opt": true, "package": true, "import": true, "inline": true,
+	"marks": true, "assert": true, "assumed": true, "pure": true, "nosafety": true, "opt": true, "package": true, "import": true, "inline": true,
 }
 
 // ParseContractText parses the //@ lines of one file. pkgPath is the package the
@@ -803,6 +804,15 @@ func (cs *ContractSet) ParseContractText(file string, pkgPath string, lines []st
 					return err
 				}
 				cur.Ensures = append(cur.Ensures, c)
+			case "assert":
+				c, err := mkClause("assert", rest)
+				if err != nil {
+					return err
+				}
+				if c.At == "" {
+					return errf("assert needs at \"source text\"")
+				}
+				cur.Asserts = append(cur.Asserts, c)
 			case "marks":
 				// free postcondition: assumed by callers, not checked against the body. Only
 				// meaningful for uninterpreted marker predicates ("this value was returned by f(x, y)").
